@@ -29,7 +29,8 @@ IsChain(S) == \A a, b \in S : IsPrefixTag(a, b) \/ IsPrefixTag(b, a)
 Deepest(S) == IF S = {} THEN <<0>>
               ELSE CHOOSE t \in S : \A u \in S : Len(u) <= Len(t)
 
-\* Job names: step names are absolute paths = non-empty sequences of segments; the job of a step
+\* Job names: step names are absolute paths = sequences of segments (the empty sequence is the root step "/", the
+\* name the CWL translator gives to a top-level CommandLineTool / ExpressionTool); the job of a step
 \* for a tag is the step path extended with the tag as its last segment.
 JoinJob(step, tag) == Append(step, tag)
 SplitJob(job) == <<SubSeq(job, 1, Len(job) - 1), job[Len(job)]>>
